@@ -18,6 +18,15 @@ from . import boot  # noqa: F401
 
 COMPONENTS = ["obj", "obj_grad", "cons", "cons_jac", "lag_hess"]
 
+# trace of the solve in progress (set by MonitoredSolver.solve): lets fault injectors
+# note during which trial step they fired
+ACTIVE = {"trace": None}
+
+
+def current_trial():
+    tr = ACTIVE["trace"]
+    return None if tr is None else len(tr.trials) - 1
+
 
 def _site_chain(limit=14):
     """pygradflow frames (module:function) from the callback upwards, innermost first."""
@@ -89,7 +98,7 @@ class RecordingProblem:
         if self.enabled:
             self.calls.append(rec)
         if faulted:
-            self.fault.fired.append((comp, idx, xa))
+            self.fault.fired.append((comp, idx, xa, current_trial()))
         return faulted
 
     def obj(self, x):
@@ -153,7 +162,7 @@ class FaultLinearSolverFactory:
         k = self.n_factor
         self.n_factor += 1
         if self.fail is not None and self.fail[0] == "factor" and self.fail[1] == k:
-            self.fired.append(("factor", k))
+            self.fired.append(("factor", k, current_trial()))
             raise LinearSolverError("injected factorisation failure #%d" % k)
         inner = self.real(mat, solver_type, symmetric=symmetric)
         return _SolverProxy(self, inner, mat)
@@ -173,7 +182,7 @@ class _SolverProxy:
         k = fac.n_solve
         fac.n_solve += 1
         if fac.fail is not None and fac.fail[0] == "solve" and fac.fail[1] == k:
-            fac.fired.append(("solve", k))
+            fac.fired.append(("solve", k, current_trial()))
             raise LinearSolverError("injected solve failure #%d" % k)
         sol = self._inner.solve(rhs, trans=trans, initial_sol=initial_sol)
         if fac.record:
@@ -343,9 +352,13 @@ def make_monitored_solver(problem, params, extra_callbacks=0):
             def factory(problem, params):
                 return _PenaltyProxy(real(problem, params), trace)
 
-            with Patch() as p:
-                p.set(S, "penalty_strategy", factory)
-                return super().solve(x0, y0)
+            ACTIVE["trace"] = trace
+            try:
+                with Patch() as p:
+                    p.set(S, "penalty_strategy", factory)
+                    return super().solve(x0, y0)
+            finally:
+                ACTIVE["trace"] = None
 
     return MonitoredSolver(problem, params)
 
